@@ -165,6 +165,38 @@ def check_group(arg):
                 break
     if acl.tcam_count() != tcam0:
         bad("tcam-seq", "tcam_count changed by renumbering/sorting")
+    # a top level that mixes plain entries with blocks (an ACL built from objects: a heading and the line after it form a block, the other lines stay plain)
+    try:
+        objs, k = [], 0
+        while k < len(lines_raw):
+            if lines_raw[k].startswith("remark =") and k + 1 < len(lines_raw) and not lines_raw[k + 1].startswith("remark ="):
+                objs.append(cisco_acl.AceGroup(items=[cisco_acl.Remark(lines_raw[k]), cisco_acl.Remark(lines_raw[k + 1]) if lines_raw[k + 1].startswith("remark") else
+                                                    sc.make_ace(lines_raw[k + 1], "ios")], platform="ios"))
+                k += 2
+            else:
+                objs.append(cisco_acl.Remark(lines_raw[k]) if lines_raw[k].startswith("remark") else sc.make_ace(lines_raw[k], "ios"))
+                k += 1
+        if any(isinstance(o, cisco_acl.AceGroup) for o in objs) and not all(isinstance(o, cisco_acl.AceGroup) for o in objs):
+            acl3 = cisco_acl.Acl(name="A", items=objs, platform="ios")
+            tcam3 = acl3.tcam_count()
+            if tcam3 != tcam0:
+                bad("tcam-mixed", f"tcam_count() of the same entries with a mixed top level = {tcam3}, flat = {tcam0}")
+            for start, step in ((10, 10), (95, 10)):
+                acl3.resequence(start, step)
+                numbered3 = flat_lines(acl3)
+                tops3 = list(acl3.items)
+                for _ in range(3):
+                    rnd.shuffle(tops3)
+                    acl3.items.clear()
+                    acl3.items.extend(tops3)
+                    acl3.sort()
+                    if flat_lines(acl3) != numbered3:
+                        bad("sort-mixed", f"sort() after resequence({start}, {step}) on a top level of plain entries and blocks does not restore the numbered order: {flat_lines(acl3)} vs {numbered3}")
+                        break
+            if sorted(strip(l) for l in flat_lines(acl3)) != sorted(strip(l) for l in lines):
+                bad("multiset-mixed", f"resequence / sort on a mixed top level changed the entries: {flat_lines(acl3)}")
+    except Exception as ex:
+        bad("mixed-error", f"an operation on an ACL with a mixed top level raised {type(ex).__name__}: {ex}")
     acl.ungroup()
     # the same on the flat ACL: every item is a top-level item
     for start, step in ((5, 5), (95, 10)):
